@@ -12,7 +12,7 @@
 (* behaviour (a PING arms a timeout only if none is pending) satisfies     *)
 (* both properties for every configuration in range.                       *)
 (***************************************************************************)
-EXTENDS Naturals, Sequences, FiniteSets, TLC
+EXTENDS Naturals, Sequences, FiniteSets, TLC, KeepaliveDefs
 CONSTANTS MaxPing, MaxPong, Horizon, ReplaceOnPing
 
 Patterns == {"always", "never", "stops1", "stops2", "late1", "late2"}
@@ -22,7 +22,6 @@ vars == <<now, ping, pong, pat, nextPing, pending, pongsDue, answered, dropped, 
 
 None == 0   \* pending = 0: no timeout armed (deadlines are >= 1)
 
-Delay(p) == IF p = "late1" THEN 1 ELSE IF p = "late2" THEN 2 ELSE 0
 Answers(p, k) ==    \* does the client answer the k-th PING
     CASE p = "never" -> FALSE
       [] p = "stops1" -> k <= 1
@@ -75,10 +74,4 @@ DeadDropped == (firstUnanswered # 0 /\ now > firstUnanswered + pong) => dropped
 DropNotEarly == dropped => (firstUnanswered # 0 \/ Delay(pat) >= pong \/ Delay(pat) >= ping) 
 DropOnTime == (dropped /\ firstUnanswered # 0) => dropTime <= firstUnanswered + pong
 
-(* the expected time of disconnection for the real-time runs (0 = never within the horizon) *)
-ExpectedDrop(pg, po, p) ==
-    CASE p = "never" -> pg + po
-      [] p = "stops1" -> 2 * pg + po
-      [] p = "stops2" -> 3 * pg + po
-      [] OTHER -> 0
 =============================================================================
